@@ -49,6 +49,8 @@ def render(ead, order=None, continuation=None, comments=False, models="after", r
     lines.append(".model " + ead["name"])
     emit([".inputs"] + list(ead["inputs"]))
     emit([".outputs"] + list(ead["outputs"]))
+    if ead.get("clock"):
+        emit([".clock"] + list(ead["clock"]))
     items = ead["items"]
     for i in (order if order is not None else range(len(items))):
         it = items[i]
@@ -81,8 +83,10 @@ def render(ead, order=None, continuation=None, comments=False, models="after", r
     return "\n".join(lines) + "\n"
 
 
-def expected(ead, models="after"):
-    """instances {cname: (model, type, attr, param, covers)}, partition of pins into nets, top ports."""
+def expected(ead, models="after", order=None):
+    """instances {cname: (model, type, attr, param, covers)}, partition of pins into nets, top ports.
+    An instance without .cname gets the placeholder name <model>@nameless<k> (the name the reader gives it is
+    not specified): ecanon.match_nameless tries every assignment of the reader's names to the placeholders."""
     parent = {}
 
     def find(x):
@@ -107,16 +111,24 @@ def expected(ead, models="after"):
         for nm in names:
             base, idx = split(nm)
             ports.setdefault(base, [direction, 0])
+            if ports[base][0] != direction:
+                ports[base][0] = "inout"   # listed under .inputs and under .outputs
             ports[base][1] = max(ports[base][1], idx + 1)
             attach(nm, ("P", base, idx))
     insts = {}
-    for it in ead["items"]:
+    nameless = {}
+    seq = [ead["items"][i] for i in order] if order is not None else list(ead["items"])
+    for it in seq:
         k = it["kind"]
         if k == "conn":
             find(split(it["a"])); find(split(it["b"]))
             union(split(it["a"]), split(it["b"]))
             continue
-        name = it["cname"]
+        name = it.get("cname")
+        if name is None:
+            assert k in ("subckt", "gate")
+            name = "%s@nameless%d" % (it["model"], nameless.get(it["model"], 0))
+            nameless[it["model"]] = nameless.get(it["model"], 0) + 1
         if k in ("subckt", "gate"):
             insts[name] = (it["model"], "EBLIF." + k, dict(it.get("attr") or {}), dict(it.get("param") or {}), None)
             for f, a in it["conns"]:
@@ -155,4 +167,4 @@ def expected(ead, models="after"):
                 fb, fi = split(f)
                 pp[fb] = max(pp.get(fb, 0), fi + 1)
     return {"insts": insts, "nets": part, "ports": {k: tuple(v) for k, v in ports.items()}, "primitives": prim,
-            "inferred": inferred}
+            "inferred": inferred, "clock": list(ead.get("clock") or [])}
